@@ -5,7 +5,7 @@ import re
 from ..fn import World
 from ..index import AnalysisError, dotted
 from ..astutil import text, short, endswith, calls_in, walk_no_nested
-from ._h_F import ifn, Res, res_of, canon, _At
+from ._h_F import ifn, Res, res_of, canon, _At, sole_arg
 
 EXPLANATION = (
   "Decides (R1) that every TreeConverter.visit_X consumes every field of ast.X (except ctx / kind "
@@ -64,7 +64,7 @@ def r1_fields(run, w, tc):
     rets = r.returns()
     delegates = bool(rets) and not r.falls_off_end() and not r.bare_returns() and all(
       isinstance(leaf, ast.Call) and (dotted(leaf.func) or "").startswith("self.visit_") and
-      [text(a) for a in leaf.args] == [p] and not leaf.keywords
+      sole_arg(leaf) is not None and text(sole_arg(leaf)) == p
       for (n, v) in rets for (f, leaf) in Res.cases(v))
     missing = [f for f in klass._fields if f not in used and f not in ALLOWED_UNUSED]
     run.ob(R1, fi.qualname, "fields of ast.%s: %s" % (cls_name, ", ".join(klass._fields)),
@@ -76,7 +76,8 @@ def r1_fields(run, w, tc):
 def _rejecting(r, n, v, p):
   """Return node n (resolved value v) hands the node to generic_visit (which raises)."""
   return all(isinstance(leaf, ast.Call) and dotted(leaf.func) == "self.generic_visit" and
-             [text(a) for a in leaf.args] == [p] for (f, leaf) in Res.cases(v))
+             sole_arg(leaf) is not None and text(sole_arg(leaf)) == p
+             for (f, leaf) in Res.cases(v))
 
 
 def _class_names(mod_unused, a):
